@@ -1,6 +1,7 @@
 package forwarder
 
 import (
+	"encoding/binary"
 	"fmt"
 	"net"
 	"sync"
@@ -253,9 +254,24 @@ func convertSlice(ports [][]uint16) []byte {
 	return b
 }
 
+// sdfFilterWellFormed reports whether the flow description announced by an SDF Filter IE fits into
+// its payload; the IE parser slices the payload without checking and would fault otherwise.
+func sdfFilterWellFormed(i *ie.IE) bool {
+	p := i.Payload
+	if len(p) >= 1 && p[0]&0x01 != 0 { // FD flag
+		if len(p) < 4 || 4+int(binary.BigEndian.Uint16(p[2:4])) > len(p) {
+			return false
+		}
+	}
+	return true
+}
+
 func (g *Gtp5g) newSdfFilter(i *ie.IE, srcIf uint8) (nl.AttrList, error) {
 	var attrs nl.AttrList
 
+	if !sdfFilterWellFormed(i) {
+		return nil, errors.New("malformed SDF filter")
+	}
 	v, err := i.SDFFilter()
 	if err != nil {
 		return nil, err
@@ -570,6 +586,10 @@ func (g *Gtp5g) newForwardingParameter(ies []*ie.IE) (nl.AttrList, error) {
 		case ie.DestinationInterface:
 		case ie.NetworkInstance:
 		case ie.OuterHeaderCreation:
+			if len(x.Payload) >= 2 && x.Payload[1]&0xc0 != 0 {
+				// C-TAG / S-TAG are not supported (and the IE parser faults on them)
+				break
+			}
 			v, err := x.OuterHeaderCreation()
 			if err != nil {
 				break
